@@ -60,4 +60,11 @@ theorem Un.handshake_run (ops : List (Op K E)) (ks : List K) (hnd : ks.Nodup)
 example : ([0, 1].map fun k => (unAdj (Un.run [Op.connect 0 0 7, .connect 0 1 1, .connect 1 0 2] : Store Nat Nat) k).length).sum = 6 := by
   decide
 
+/-- the handshake without any hypothesis on the store: after every history, over any duplicate-free list of nodes
+    that contains the operands of the history, the degrees add up to twice the number of edges -/
+theorem Un.handshake_history (ops : List (Op K E)) (ks : List K) (hnd : ks.Nodup)
+    (hk : ∀ k ∈ opKeys ops, k ∈ ks) :
+    (ks.map fun k => (unAdj (Un.run ops) k).length).sum = 2 * (ks.map fun k => ((Un.run ops).get k).out.length).sum :=
+  Un.handshake_history' ops ks hnd hk
+
 end G
